@@ -7,7 +7,7 @@ seed="$wt/_seed"
 [ -f "$seed/patch.diff" ] || { echo "no patch"; exit 2; }
 dd=$(python3 -c "import json;print(json.load(open('$seed/meta.json'))['demo_dir'])" | sed "s#^$wt/##; s#^\./##")
 dest="$wt/$dd/zz_seed_demo_test.go"
-cd "$wt" && git stash -q 2>/dev/null; git -C "$wt" checkout -q -- . 
+git -C "$wt" checkout -q -- .
 cp "$seed/demo_test.go" "$dest"
 echo "== demo WITHOUT change (must pass)"; (cd "$wt" && go test -count=1 "./$dd/" 2>&1 | tail -3)
 git -C "$wt" apply "$seed/patch.diff" || { echo "patch does not apply"; exit 2; }
